@@ -105,7 +105,7 @@ mod imp {
                         Rhs::Name(n) => s.push_str(&format!("{}{} = {}\n", kw, name, n)),
                         Rhs::NonCallable => s.push_str(&format!("{}{} = 5\n", kw, name)),
                         Rhs::Closure(t) => s.push_str(&format!(
-                            "if true {{ let cap = \"{}\"; {} = fn(x) {{ println(cap); return \".\" }} }}\n", tag_text(*t), name)),
+                            "if true {{ let mut cap = \"{}\"; {} = fn(x) {{ println(cap); return \".\" }} }}\n", tag_text(*t), name)),
                     }
                 }
                 Stmt::Call { name } => s.push_str(&format!("println({}(-2.5))\n", name)),
